@@ -21,25 +21,25 @@ ELS = ["NI", "CR", "AL", "FE"]
 FLUX, COMP = BoundaryConditions.FLUX_BC, BoundaryConditions.COMPOSITION_BC
 
 
-def mk_model(ctx, cls, nel, N, bcs, order=None):
+def mk_model(ctx, cls, nel, N, bcs, order=None, tag=""):
     els = ELS[:nel + 1]
     m = cls([0.0, 1.0], N, els, ["P"], record=True)
-    dz = ctx.real("dz", (0.1, 1.0)); ctx.assume(dz > 0)
+    dz = ctx.real(tag + "dz", (0.1, 1.0)); ctx.assume(dz > 0)
     m.dz = dz
-    m.setTemperature(ctx.real("T", (800.0, 1200.0)))
+    m.setTemperature(ctx.real(tag + "T", (800.0, 1200.0)))
     m.hashTable.enableCaching(False)
     vals = {}
     # boundary conditions: bcs[e] = (left kind, right kind); `order` = order in which the user sets them (dict insertion order)
     for e in (order if order is not None else range(nel)):
         lk, rk = bcs[e]
-        lv = ctx.real("leftBC_%s" % els[e + 1], (-0.5, 0.5)); rv = ctx.real("rightBC_%s" % els[e + 1], (-0.5, 0.5))
+        lv = ctx.real(tag + "leftBC_%s" % els[e + 1], (-0.5, 0.5)); rv = ctx.real(tag + "rightBC_%s" % els[e + 1], (-0.5, 0.5))
         if lk is not None:
             m.boundaryConditions.setBoundaryCondition(BoundaryConditions.LEFT, lk, lv, els[e + 1])
         if rk is not None:
             m.boundaryConditions.setBoundaryCondition(BoundaryConditions.RIGHT, rk, rv, els[e + 1])
         vals[e] = (lv if lk is not None else 0.0, rv if rk is not None else 0.0)
     m.boundaryConditions.setupDefaults(m.elements)
-    x = ctx.reals("x", (nel, N), (0.05, 0.3))
+    x = ctx.reals(tag + "x", (nel, N), (0.05, 0.3))
     return m, dz, x, vals
 
 
@@ -229,7 +229,7 @@ def clip(ctx, nel=2, N=2):
             ctx.prove("postProcess leaves admissible compositions alone", ctx.implies(inside, ctx.eq(m.x[e, i], xin[e, i])))
     ctx.prove("postProcess never requests a stop", stop is False)
     # ---- setup on a fresh model
-    m2, dz2, x2, vals2 = mk_model(ctx, SinglePhaseModel, nel, N, tuple((COMP if e == 0 else None, None) for e in range(nel)))
+    m2, dz2, x2, vals2 = mk_model(ctx, SinglePhaseModel, nel, N, tuple((COMP if e == 0 else None, None) for e in range(nel)), tag="s_")
     m2.constraints.minComposition = mc
 
     class St:
